@@ -25,13 +25,13 @@ import (
 // COPYX — a field copied straight from the receiver must come from the same-named field.
 
 type canonCtx struct {
-	named   *types.Named
-	info    *types.Info
-	fd      *ast.FuncDecl
-	selves  map[types.Object]bool
-	stored  map[types.Object]string // local/param -> field it is stored into
-	feeds   map[types.Object]string // parameter -> field whose constructor receives it first (paramsIn -> e2s)
-	defs    map[types.Object][]ast.Expr
+	named  *types.Named
+	info   *types.Info
+	fd     *ast.FuncDecl
+	selves map[types.Object]bool
+	stored map[types.Object]string // local/param -> field it is stored into
+	feeds  map[types.Object]string // parameter -> field whose constructor receives it first (paramsIn -> e2s)
+	defs   map[types.Object][]ast.Expr
 }
 
 func newCanonCtx(info *types.Info, fd *ast.FuncDecl, named *types.Named) *canonCtx {
